@@ -275,13 +275,25 @@ func checkDiagnostics(uri string, d *docModel, f *lspx.Frame) error {
 			return fmt.Errorf("diagnostic %d is on line %d of a %d-line document", i, line, nLines)
 		}
 		var pe *parser.ParseError
-		if !errors.As(e, &pe) || pe.TokenIdx >= len(toks) {
+		if !errors.As(e, &pe) || pe.Line < 1 {
 			continue
 		}
-		// lines spanned by the statement: from its first token to the next semicolon
-		lo := toks[pe.TokenIdx].Start.Line - 1
+		// lines spanned by the rest of the statement: from the token the error names (found by
+		// its source position - TokenIdx counts parser tokens, in which compound keywords such
+		// as GROUP BY are two) to the next semicolon
+		first := -1
+		for j := range toks {
+			if toks[j].Start.Line > pe.Line || (toks[j].Start.Line == pe.Line && toks[j].Start.Column >= pe.Column) {
+				first = j
+				break
+			}
+		}
+		if first < 0 {
+			continue
+		}
+		lo := toks[first].Start.Line - 1
 		hi := lo
-		for j := pe.TokenIdx; j < len(toks); j++ {
+		for j := first; j < len(toks); j++ {
 			if toks[j].Start.Line-1 > hi {
 				hi = toks[j].Start.Line - 1
 			}
@@ -323,6 +335,10 @@ var docTexts = []string{
 	"",
 	"𝄞𝄞\n𝄞",
 	"UPDATE t1 SET a = 1\nWHERE b IN (1,\n 2)\n",
+	// characters JSON encoders like to escape (<, >, &) in texts that are formatted, diagnosed and hovered
+	"select a from t1 where a < 1 and b > 2 and c <> 'x & y'",
+	"SELECT a & b FROM t1 WHERE c <= 'unterminated <&>",
+	"SELECT CASE WHEN a >= 1 THEN '<' ELSE '&' END FROM t1 GROUP BY a HAVING count(*) > 1",
 }
 
 var uris = []string{"file:///a.sql", "file:///b.sql", "untitled:1"}
@@ -337,7 +353,7 @@ func genMsg(rt *rapid.T, id int, open map[string]string, feat map[string]bool) M
 	case 2:
 		return Msg{Kind: "change_full", URI: uri, Version: rapid.IntRange(2, 50).Draw(rt, "ver"), Text: rapid.SampledFrom(docTexts).Draw(rt, "text")}
 	case 3, 4, 5, 6, 7:
-		m := Msg{Kind: "change_inc", URI: uri, Version: rapid.IntRange(2, 50).Draw(rt, "ver"), Text: rapid.SampledFrom([]string{"", "x", "é", "𝄞", "\n", "a\nb", " WHERE 1 "}).Draw(rt, "ins")}
+		m := Msg{Kind: "change_inc", URI: uri, Version: rapid.IntRange(2, 50).Draw(rt, "ver"), Text: rapid.SampledFrom([]string{"", "x", "é", "𝄞", "\n", "a\nb", " WHERE 1 ", " < 1 & 2 > 3 "}).Draw(rt, "ins")}
 		switch rapid.IntRange(0, 5).Draw(rt, "rangekind") {
 		case 0, 1, 2: // in range, ordered
 			m.SL, m.SC = rapid.IntRange(0, 3).Draw(rt, "sl"), rapid.IntRange(0, 8).Draw(rt, "sc")
@@ -400,7 +416,7 @@ func genMsg(rt *rapid.T, id int, open map[string]string, feat map[string]bool) M
 
 func TestLSPHistory(t *testing.T) {
 	hx.Rule("lsp_history", "message histories (<= 30 messages, inside the rate limiter's window) against a real lsp.Server on in-memory pipes: initialize, didOpen/didChange (full, incremental with in-range, past-the-end, inverted and negative ranges, batched changes)/didClose/didSave over ASCII and non-ASCII (BMP and astral) text, every request kind at arbitrary positions, unknown methods, requests without params, wrongly typed envelopes, malformed JSON, bad headers; after every message (barrier = a sentinel request): server alive, output frames well-formed with exact Content-Length, exactly one response per request id and none otherwise, server copy of each document == UTF-16 reference model, last diagnostics match the recovery parse of the model text in version, number and line; non-trivial = history has an incremental edit on a non-ASCII document or a past-the-end/invalid edit or malformed input; distinct = message kinds")
-	histCheck.Rapid(t, hx.N(600, 20000), func(rt *rapid.T) History {
+	histCheck.Rapid(t, hx.N(2400, 40000), func(rt *rapid.T) History {
 		n := rapid.IntRange(1, 30).Draw(rt, "n")
 		h := History{Msgs: []Msg{{Kind: "initialize", ID: 0}, {Kind: "initialized"}}}
 		feat := map[string]bool{}
